@@ -420,6 +420,24 @@ pub fn run(ctx: &Ctx) -> Outcome {
         if i % 8 == 3 || !ctx.quick() {
             second_attempts(prior, i % FAULT_KINDS.len(), rep);
         }
+        if i == 2 {
+            // prior rates at the ends of what `BaudOther(usize)` can hold, and around every power of two a narrower integer
+            // would wrap at: whatever arithmetic is done on the old rate, the port ends up at 19200 8N1 or the call fails
+            let mut rates: Vec<usize> = vec![1, 2, 3, 49, 50, 51, 109, 110, 111, 19_199, 19_201, usize::MAX / 2, usize::MAX - 1, usize::MAX];
+            for p in [8u32, 15, 16, 24, 31, 32, 33, 40, 48, 63] {
+                let b = 1usize << p;
+                rates.extend([b - 1, b, b + 1, b + 19_200, b.wrapping_mul(3)]);
+            }
+            for (k, rate) in rates.into_iter().enumerate() {
+                let prior = PortSettings { baud_rate: BaudRate::BaudOther(rate), char_size: SIZES[k % 4], parity: PARITIES[k % 3], stop_bits: STOPS[k % 2], flow_control: FLOWS[k % 3] };
+                for e in [Entry::ConfigurePort(Duration::from_millis(250)), Entry::SerialSignBus, Entry::Odk] {
+                    for fault in [Fault::None, Fault::Baud, Fault::WriteSettings] {
+                        run_case(prior, e, fault, k % FAULT_KINDS.len(), rep);
+                    }
+                }
+                rep.count("extreme_prior_rates");
+            }
+        }
         if i == 1 {
             concurrent_setups(if ctx.quick() { 45 } else { 600 }, rep);
         }
@@ -432,6 +450,7 @@ pub fn run(ctx: &Ctx) -> Outcome {
         floor("ports that already carry a read timeout (equal to / different from the one asked for), every error kind at every fault point", report.get("cases_on_a_port_with_a_timeout_already_set") == (270 * 4 * 4 * FAULT_KINDS.len() * 4) as u64, report.get("cases_on_a_port_with_a_timeout_already_set")),
         floor("one port object configured 70 000 times", report.get("repeated_setups_of_one_port") == 70_000, report.get("repeated_setups_of_one_port")),
         floor("a failed setup followed by a second attempt (same port three ways, another port) once the cause is gone", report.get("second_attempts_ok") >= 135 * 16, report.get("second_attempts_ok")),
+        floor("prior rates at the ends of usize and around 2^8 .. 2^63", report.get("extreme_prior_rates") == 64, report.get("extreme_prior_rates")),
         floor("two to four ports set up at the same time on threads of their own, one of them slow to apply settings", report.get("concurrent_setups_ok") >= 100, report.get("concurrent_setups_ok")),
         floor("every error kind (7, incl. Interrupted) at every fault point (4)", report.set_len("fault_kind_x_point") == 28, report.set_len("fault_kind_x_point")),
     ];
